@@ -44,15 +44,15 @@ def run(ctx):
     r135(ctx)
 
 
-def r131(ctx):
-    ctx.rule("R13.1", "add_block/remove_block: every tracked-state mutation is dominated by Ok(maybe_finish_decoding_block) "
+def r131(ctx, rid="R13.1"):
+    ctx.rule(rid, "add_block/remove_block: every tracked-state mutation is dominated by Ok(maybe_finish_decoding_block) "
                       "and Ok(validate_block) and reaches no refusal exit")
     eff = effects.Effects(ctx, CLASSES)
     for fn in ("add_block", "remove_block"):
         b = ctx.prog.fn(f"{TR}::{fn}")
         fv = fnview(ctx, b)
         sites = eff.sites(b)
-        ctx.floor("R13.1", f"mutation sites in {fn}", len(sites), 4)
+        ctx.floor(rid, f"mutation sites in {fn}", len(sites), 4)
         g1 = R.guard_edges(ctx, fv, lambda n: n == f"{TR}::maybe_finish_decoding_block", 0)
         g2 = R.guard_edges(ctx, fv, lambda n: n == f"{TR}::validate_block", 0)
         exits, _ = effects.refusal_exits(ctx, fv)
@@ -60,12 +60,12 @@ def r131(ctx):
             k = f"{b.name}/{desc.split('(')[0].replace(' ', '_')}"
             ok1 = fv.must_pass(bi, g1) and bool(g1)
             ok2 = fv.must_pass(bi, g2) and bool(g2)
-            ctx.ob("R13.1", ok1 and ok2, f"{k}/validated-first",
+            ctx.ob(rid, ok1 and ok2, f"{k}/validated-first",
                    f"`{fn}` mutates {sorted(cs)} ({desc}) on a path that has not passed "
                    f"{'maybe_finish_decoding_block' if not ok1 else 'validate_block'}",
                    where=f"{b.file}:{ln}", sample=f"{desc} dominated by both validations")
             bad = [x for x in exits if fv.reaches(bi, x["block"]) and x["block"] != bi]
-            ctx.ob("R13.1", not bad, f"{k}/no-refusal-after",
+            ctx.ob(rid, not bad, f"{k}/no-refusal-after",
                    f"`{fn}` mutates {sorted(cs)} ({desc}) and can still refuse the request afterwards "
                    f"(error exit at line {bad[0]['line'] if bad else '?'}): a rejected request would not be atomic",
                    where=f"{b.file}:{ln}", sample=f"{desc}: no error exit reachable afterwards")
@@ -73,7 +73,7 @@ def r131(ctx):
     for fn in ("validate_block",):
         b = ctx.prog.fn(f"{TR}::{fn}")
         s = eff.summary(b)
-        ctx.ob("R13.1", not s, f"{b.name}/pure", f"`{fn}` itself mutates {sorted(s)}", where=f"{b.file}:{b.line}",
+        ctx.ob(rid, not s, f"{b.name}/pure", f"`{fn}` itself mutates {sorted(s)}", where=f"{b.file}:{b.line}",
                sample="validation is read-only on tracked state")
 
 
@@ -265,6 +265,22 @@ def r134(ctx):
                f"remove_block no longer compares the supplied previous {name} with the remembered one: a request can retreat the tip "
                f"onto a header the tracker never validated" + (" (a blank filter header then also disables proof checking)" if half == "1" else ""),
                where=f"{b.file}:{b.line}", sample=f"supplied_prev_headers.{half} vs self.headers[0].{half}")
+        # the comparison is made whenever a previous header is remembered: the only way around it is the empty-window edge
+        want = atoms.parse_atom("len(self.headers) == 0")
+        empty_e = set()
+        for sb_ in sorted(fv.live_blocks()):
+            if b.term(sb_).kind != "switch":
+                continue
+            for tg, at in atoms.edge_atoms(fv, sb_):
+                if at is not None and atoms.entails(at, want):
+                    empty_e.add((sb_, tg))
+        if sites:
+            around = fv.reach(0, cut_nodes={x[0] for x in sites}, cut_edges=empty_e)
+            skipped = [ln for sb, ln in succ if sb in around]
+            ctx.ob("R13.4", bool(empty_e) and not skipped, f"{b.name}/prev-{name.replace(' ', '-')}/always-compared",
+                   f"remove_block can succeed without comparing the supplied previous {name} although the tracker remembers one "
+                   "(the comparison is conditional on something other than an empty header window)",
+                   where=f"{b.file}:{sites[0][1]}", sample="comparison skipped only when self.headers is empty")
         for bi, line, eqe, dife, r0, r1 in sites:
             bad = [sb for sb, ln in succ if any(sb in fv.reach(v) for (_, v) in dife)]
             ctx.ob("R13.4", bool(dife) and not bad, f"{b.name}/prev-{name.replace(' ', '-')}/mismatch-refused",
